@@ -416,6 +416,8 @@ func getOffer(header []byte, isAccepted func(spec, offer string, specParams head
 	// See: https://www.rfc-editor.org/rfc/rfc9110#name-content-negotiation-fields
 	forEachMediaRange(header, func(accept []byte) {
 		order++
+		// optional whitespace before the comma does not belong to the range (or to its weight)
+		accept = utils.TrimRight(accept, ' ')
 		spec, quality := accept, 1.0
 		var params headerParams
 
